@@ -13,6 +13,7 @@ const (
 	vchkNoPanic = 1 << iota
 	vchkTiling
 	vchkPos
+	vchkNoSyntax // with vchkTiling: also no template syntax inside text tokens
 )
 
 // vlexAll scans src and returns every token; the lexer goroutine is run to
@@ -65,6 +66,7 @@ func vlex3(format ast.Format, program bool, prefix, suffix string, n int, checks
 	}
 	if checks&vchkTiling != 0 {
 		vlexMarkdown = format == ast.FormatMarkdown
+		vlexSyntaxCheck = checks&vchkNoSyntax != 0
 		vlexTiling(src, toks, err, program)
 	}
 	vreach("end")
@@ -172,7 +174,9 @@ func vlexTiling(src []byte, toks []token, err error, program bool) {
 	if err == nil {
 		vassert(!inCode, "code-closed-at-end-without-error")
 		vassert(next == len(src), "tokens-cover-the-source")
-		vlexNoSyntaxInText(toks)
+		if vlexSyntaxCheck {
+			vlexNoSyntaxInText(toks)
+		}
 	}
 }
 
@@ -184,6 +188,10 @@ func vlexTiling(src []byte, toks []token, err error, program bool) {
 // In Markdown a backslash escapes the character that follows it (the lexer
 // implements CommonMark's backslash escapes on purpose), so there "\{" is text.
 var vlexMarkdown bool
+
+// vlexSyntaxCheck enables the check below (quick sizes only: it doubles the
+// number of symbolic byte tests per path).
+var vlexSyntaxCheck bool
 
 func vlexNoSyntaxInText(toks []token) {
 	rawStmt, afterRaw := false, false
@@ -331,11 +339,11 @@ func vh_c21_lex_cseeds_t() { vlexSeeds(vcodeSeeds, 3, vchkPos) }
 
 // ---- C15: tokens verbatim and tiling ----
 
-func vh_c15_lex_html_q()   { vlex(ast.FormatHTML, false, "", 4, vchkTiling) }
-func vh_c15_lex_md_q()     { vlex(ast.FormatMarkdown, false, "", 4, vchkTiling) }
-func vh_c15_lex_text_q()   { vlex(ast.FormatText, false, "", 4, vchkTiling) }
-func vh_c15_lex_tseeds_q() { vlexSeeds(vtextSeeds, 3, vchkTiling) }
-func vh_c15_lex_cseeds_q() { vlexSeeds(vcodeSeeds, 2, vchkTiling) }
+func vh_c15_lex_html_q()   { vlex(ast.FormatHTML, false, "", 4, vchkTiling|vchkNoSyntax) }
+func vh_c15_lex_md_q()     { vlex(ast.FormatMarkdown, false, "", 4, vchkTiling|vchkNoSyntax) }
+func vh_c15_lex_text_q()   { vlex(ast.FormatText, false, "", 4, vchkTiling|vchkNoSyntax) }
+func vh_c15_lex_tseeds_q() { vlexSeeds(vtextSeeds, 3, vchkTiling|vchkNoSyntax) }
+func vh_c15_lex_cseeds_q() { vlexSeeds(vcodeSeeds, 2, vchkTiling|vchkNoSyntax) }
 func vh_c15_lex_rawend_q() { vlexRawEnd(2) }
 func vh_c15_lex_rawend_t() { vlexRawEnd(4) }
 
